@@ -157,7 +157,7 @@ def rd_hex(n: int) -> str:
     return struct.pack('!HHL', 0, 65000, n).hex()
 
 
-def _expand_group(group_no: int, spec: list, addpath: bool, used: set, announce: bool, nh4_fixed: int) -> list[dict]:
+def _expand_group(group_no: int, spec: list, addpath: bool, used: set, announce: bool, nh4_fixed: int, extnh: bool = False) -> list[dict]:
     afi, safi, count, mix = spec[0], spec[1], spec[2], spec[3]
     nh, nhmod = (spec[4], spec[5]) if announce else (0, 1)
     masks = (MIX4 if afi == 1 else MIX6)[mix % 6]
@@ -194,6 +194,10 @@ def _expand_group(group_no: int, spec: list, addpath: bool, used: set, announce:
             # an IPv4 unicast route travels with the NEXT_HOP attribute of its attribute set: production groups
             # routes by (attributes, next hop), so all IPv4 unicast routes of one collection share that next hop
             rec['nexthop'] = NH4[nh4_fixed]
+        elif afi == 1 and extnh and i % 2 == 1:
+            # RFC 8950 session: every other labelled / VPN IPv4 route comes with an IPv6 next hop, so that the MP_REACH_NLRI
+            # attributes of one family carry next hops of different lengths (4 / 12 and 16 / 24 octets)
+            rec['nexthop'] = NH6[(nh + i % nhmod) % 3]
         elif afi == 1:
             rec['nexthop'] = NH4[(nh + i % nhmod) % 3]
         else:
@@ -215,7 +219,7 @@ def expand(case: dict) -> tuple[list[dict], list[dict]]:
     withdraws: list[dict] = []
     g = 0
     for spec in case['announces']:
-        announces += _expand_group(g, spec, addpath, used, True, nh4_fixed)
+        announces += _expand_group(g, spec, addpath, used, True, nh4_fixed, bool(case['session'].get('extnh')))
         g += 1
     for spec in case['withdraws']:
         withdraws += _expand_group(g, spec, addpath, used, False, nh4_fixed)
@@ -255,6 +259,7 @@ def sessions(draw):
         'asn4': draw(st.sampled_from([True, True, False])),
         'ibgp': draw(st.booleans()),
         'families': [list(f) for f in fams],
+        'extnh': draw(st.integers(0, 3)) == 0 and any(f in ((1, 4), (1, 128)) for f in fams),
     }
 
 
